@@ -10,5 +10,6 @@ func init() {
 		"limit_concurrent: measurements racing for the last identity slots may be admitted in any order (which racing set keeps its identity is not asserted); a set first measured strictly before another one (program order / after a join) must not lose against it; not run under -race (the sequential sub-checks would exceed the quick budget about 4x)",
 		"every histogram point (identified and overflow) is compared field by field with the measurements folded into it: count, sum, min, max (NoMinMax is never configured), explicit bucket counts by the documented (lower, upper] rule against the configured bounds, exponential zero count; exponential bucket placement is left to C07",
 		"non-finite float64 measurements (+Inf, NaN; -Inf where negative values are allowed) are counted like any other measurement by sum, last-value and explicit-bucket histogram streams (the set takes an identity slot, count conservation holds, sums follow IEEE with NaN == NaN; min/max and the bucket of a point that folded a NaN are not predicted, only that every measurement is in exactly one bucket); the base-2 exponential aggregation ignores non-finite values by design on the pinned tree (no point, no slot, not counted) and is modelled so",
+		"attribute filters may decide on key AND value (attribute.Filter takes a KeyValue): generated value-dependent filters are pure functions of one key-value pair and the reference applies the same predicate to every key-value of every measurement; limit_concurrent uses no attribute filter",
 	))
 }
